@@ -285,12 +285,15 @@ pub fn run(tier: Tier) -> i32 {
     // trailing blanks, TAB, NBSP, U+3000, separators of other files), alone, before and after an
     // ordinary row, with every terminator
     {
-        const SPECIAL_SURFACES: [(&str, &str); 16] = [
+        const SPECIAL_SURFACES: [(&str, &str); 21] = [
+            // a backslash is an ordinary character, inside and outside quotes
+            ("a\\b", "a\\b"), ("\"a\\b\"", "a\\b"), ("\"x\\,y\"", "x\\,y"), ("\"1,2\\\"", "1,2\\"), ("\\", "\\"),
             ("#x", "#x"), ("#", "#"), ("\u{FEFF}x", "\u{FEFF}x"), ("\u{FF71}x", "\u{FF71}x"), ("\u{FF21}", "\u{FF21}"), ("\u{FFFE}", "\u{FFFE}"),
             (" x", " x"), ("x ", "x "), ("\tx", "\tx"), ("x\u{3000}", "x\u{3000}"), ("\"#q\"", "#q"), ("//x", "//x"), ("[x]", "[x]"),
             ("*", "*"), ("$1", "$1"), ("\u{00A0}", "\u{00A0}"),
         ];
-        const SPECIAL_TAILS: [&str; 14] = [
+        const SPECIAL_TAILS: [&str; 18] = [
+            "f\\n", "\"u,v\\\"", "\"u\\\"\"v\"", "C:\\new\\notes",
             "f ", "f\t", "f\u{3000}", " f", "f,g ", "f,\u{3000}", "\"q\" ", "#f", "f\u{00A0}", "\"l1\nl2\"", "\"l1\r\nl2\",w", "\"l1\rl2\"", "\u{FEFF}", "f\u{0085}",
         ];
         let plain = RowSpec { raw_surface: "a", surface: "a", left_raw: "0", left: 0, right: 1, cost: 3, tail: "plain", term: "\n" };
